@@ -82,16 +82,12 @@ Definition disk_byte_ok (b : N) : bool :=
 Lemma tab62_ok : forallb disk_byte_ok disk_bytes_62_525 = true /\ length disk_bytes_62_525 = 64%nat /\ NoDup disk_bytes_62_525.
 Proof.
   split; [vm_compute; reflexivity|]. split; [vm_compute; reflexivity|].
-  apply (NoDup_count_occ' N.eq_dec). intros x Hx.
-  assert (H : forallb (fun x => Nat.eqb (count_occ N.eq_dec disk_bytes_62_525 x) 1) disk_bytes_62_525 = true) by (vm_compute; reflexivity).
-  rewrite forallb_forall in H. apply Nat.eqb_eq, H, Hx.
+  apply nodupb_NoDup. vm_compute. reflexivity.
 Qed.
 Lemma tab53_ok : forallb disk_byte_ok disk_bytes_53_525 = true /\ length disk_bytes_53_525 = 32%nat /\ NoDup disk_bytes_53_525.
 Proof.
   split; [vm_compute; reflexivity|]. split; [vm_compute; reflexivity|].
-  apply (NoDup_count_occ' N.eq_dec). intros x Hx.
-  assert (H : forallb (fun x => Nat.eqb (count_occ N.eq_dec disk_bytes_53_525 x) 1) disk_bytes_53_525 = true) by (vm_compute; reflexivity).
-  rewrite forallb_forall in H. apply Nat.eqb_eq, H, Hx.
+  apply nodupb_NoDup. vm_compute. reflexivity.
 Qed.
 
 Lemma lxor_lt64 a b : a < 64 -> b < 64 -> N.lxor a b < 64.
